@@ -15,21 +15,28 @@ theorem racing_transitions_alternate (fo fc io : Bool) (jobs : List Job) (sched 
     let c := run sys (init fo fc io jobs) sched
     alternates io c.shared.log = true ∧
     (c.shared.holder = none → c.shared.isOpen = (c.shared.log.getLast?).getD io) := by
-  sorry
+  intro c
+  have I := Inv_run fo fc io jobs sched
+  exact ⟨I.alt, I.free⟩
 
 /-- in particular at quiescence -/
 theorem quiescent_flag_is_last_notification (fo fc io : Bool) (jobs : List Job) (sched : List Nat)
     (hq : quiescent (run sys (init fo fc io jobs) sched) = true) :
     let c := run sys (init fo fc io jobs) sched
     c.shared.isOpen = (c.shared.log.getLast?).getD io ∧ c.shared.holder = none := by
-  sorry
+  intro c
+  have I := Inv_run fo fc io jobs sched
+  have hn := Inv_quiescent fo fc io _ I hq
+  exact ⟨I.free hn, hn⟩
 
 /-- calls that change nothing notify nobody, under every schedule: with a contrary override in force nothing is
     ever delivered and the underlying flag never moves -/
 theorem overrides_silence_transitions (fo fc io : Bool) (h : fo = true ∨ fc = true) (jobs : List Job) (sched : List Nat) :
     let c := run sys (init fo fc io jobs) sched
     c.shared.log = [] ∧ c.shared.isOpen = io := by
-  sorry
+  intro c
+  have I := QInv_run fo fc io h jobs sched
+  exact ⟨I.hlog, I.hio⟩
 
 /-- exactly once per transition: the number of Opened notifications and the number of Closed notifications differ by
     at most one (a consequence of alternation, stated for counting) -/
@@ -37,13 +44,15 @@ theorem opened_closed_balance (fo fc io : Bool) (jobs : List Job) (sched : List 
     let log := (run sys (init fo fc io jobs) sched).shared.log
     ((log.filter id).length : Int) - (log.filter (!·)).length ≤ 1 ∧
     ((log.filter (!·)).length : Int) - (log.filter id).length ≤ 1 := by
-  sorry
+  intro log
+  exact alternates_balance io log (Inv_run fo fc io jobs sched).alt
 
 /-- no deadlock: as long as some thread has not finished, some thread can take a step -/
 theorem transitions_never_deadlock (fo fc io : Bool) (jobs : List Job) (sched : List Nat) :
     let c := run sys (init fo fc io jobs) sched
     quiescent c = false → ∃ i l, c.locals[i]? = some l ∧ (step i c.shared l).isSome := by
-  sorry
+  intro c hq
+  exact Inv_progress fo fc io c (Inv_run fo fc io jobs sched) hq
 
 /-- non-vacuity: two OpenCircuit and one CloseCircuit racing from a closed circuit: one Opened, then Closed -/
 example : (run sys (init false false false [.open, .open, .close true false])
